@@ -347,3 +347,9 @@ def v1_pieces(stream, pl):
     import hashlib
     stream = bytes(stream)
     return b"".join(hashlib.sha1(stream[i:i + pl]).digest() for i in range(0, len(stream), pl))
+
+
+@native
+def relpath_components(path, root):
+    import os
+    return os.path.relpath(path, root).split(os.sep)
